@@ -37,6 +37,9 @@ def build(root):
     open(os.path.join(pkg, "__init__.py"), "w").close()
     with open(os.path.join(pkg, "templates", "pkgt.liquid"), "w") as fd:
         fd.write("INSIDE-pkg")
+    os.makedirs(os.path.join(pkg, "templates", "partials"))
+    with open(os.path.join(pkg, "templates", "partials", "p.liquid"), "w") as fd:
+        fd.write("INSIDE-pkg-partial")
     with open(os.path.join(pkg, "outside.liquid"), "w") as fd:
         fd.write("OUTSIDE-pkg")
     return inside
@@ -56,10 +59,11 @@ def run(tier, seed):
                 if k >= 2 and not any(p in ("/", "..", "\x00", "link", "linkdir") for p in seq):
                     continue
                 names.add("".join(seq))
-        names |= {os.path.join(root, "secret.txt"), "/" + os.path.join(root, "secret.txt"), os.path.join(root, "secret"), "../secret.txt", "sub/../../secret.txt", "linkdir/t.txt", "x" * 5000}
+        names |= {os.path.join(root, "secret.txt"), "/" + os.path.join(root, "secret.txt"), os.path.join(root, "secret"), "../secret.txt", "sub/../../secret.txt", "linkdir/t.txt", "x" * 5000,
+                  "partials/../../outside.liquid", "partials/../../../secret.txt", "partials/../pkgt.liquid", "sub/../../outdir/t.txt", "sub/../t.txt"}
         loaders = {
             "fs": FileSystemLoader(inside), "fs-ext": FileSystemLoader(inside, ext=".txt"), "fs-nosym": FileSystemLoader(inside, reject_symlinks=True),
-            "fs-cache": CachingFileSystemLoader(inside), "pkg": PackageLoader("c22pkg"), "pkg-ext": PackageLoader("c22pkg", ext=".txt"),
+            "fs-cache": CachingFileSystemLoader(inside), "fs-cache-nosym": CachingFileSystemLoader(inside, reject_symlinks=True), "pkg": PackageLoader("c22pkg"), "pkg-ext": PackageLoader("c22pkg", ext=".txt"),
         }
         for lname, loader in loaders.items():
             env = Environment(loader=loader)
@@ -69,10 +73,10 @@ def run(tier, seed):
                     try:
                         src = loader.get_source(env, name) if mode == "sync" else asyncio.run(loader.get_source_async(env, name))
                         text = src[0]
-                        via_link = "link" in name and lname != "fs-nosym"  # a link inside the directory is followed by design unless rejected
+                        via_link = "link" in name and not lname.endswith("-nosym")  # a link inside the directory is followed by design unless rejected
                         if not text.startswith("INSIDE") and not via_link:
                             viol.append({"id": "read-outside", "witness": f"{lname}:outside:" + ("absolute" if name.startswith("/") else "relative"), "source": f"{lname}.get_source({name[:60]!r})", "got": text[:40]})
-                        elif lname == "fs-nosym" and "link" in name:
+                        elif lname.endswith("-nosym") and "link" in name:
                             viol.append({"id": "followed-symlink", "witness": f"{lname}:symlink", "source": f"{lname}.get_source({name[:60]!r})", "got": text[:40]})
                     except TemplateNotFoundError:
                         pass
@@ -82,7 +86,7 @@ def run(tier, seed):
         if root in sys.path:
             sys.path.remove(root)
         shutil.rmtree(root, ignore_errors=True)
-    return {"bound": f"names of <= {n} pieces over {len(PIECES)} pieces (3+ pieces only with a separator/'..'/NUL/link) + 7 hand-written escapes; 6 loader configurations; sync and async", "cases": cases, "distinct": cases, "violations": viol, "sample": {"name": "sub/../../secret.txt"}}
+    return {"bound": f"names of <= {n} pieces over {len(PIECES)} pieces (3+ pieces only with a separator/'..'/NUL/link) + 12 hand-written escapes; 7 loader configurations; sync and async", "cases": cases, "distinct": cases, "violations": viol, "sample": {"name": "sub/../../secret.txt"}}
 
 
 def replay(case):
